@@ -85,6 +85,13 @@ def gen(rng, i, tier):
         S = [[rng.randint(-2, 2) for _ in range(N_)] for _ in range(m)]
         b = [sum(S[j][i] * x0[i] for i in range(N_)) for j in range(m)]      # feasible by construction
         cc = [rng.randint(-3, 3) for _ in range(N_)]
+        if N_ >= 2 and rng.random() < 0.3:
+            # a variable the problem does not depend on at all (zero cost, zero column), anywhere among the variables
+            f = rng.randrange(N_)
+            cc[f] = 0
+            for row in S:
+                row[f] = 0
+            b = [sum(S[j][i] * x0[i] for i in range(N_)) for j in range(m)]
         c.update({"c": cc, "S": S, "b": b})
         A = B * sum(abs(v) for v in cc) + rng.choice([F(1, 2), F(1), F(2)])
         c["A"] = [A.numerator, A.denominator]
@@ -272,6 +279,13 @@ def check(c, P, M):
             try:
                 dec = P.convert_solution(sol, **kw)
                 val = P.is_solution_valid(sol, **kw)
+                # the same assignment handed over as a tuple and as a dict: same decoding, same verdict
+                for other in (tuple(sol), dict(enumerate(sol))):
+                    dec2, val2 = P.convert_solution(other, **kw), P.is_solution_valid(other, **kw)
+                    if _canon(dec2) != _canon(dec) or val2 != val:
+                        v.append("%s: the assignment %r decodes to %r (valid: %s) as a %s but to %r (valid: %s) as a list"
+                                 % (cls, sol, dec2, val2, type(other).__name__, dec, val))
+                        return v
             except Exception as ex:
                 v.append("%s.convert_solution/is_solution_valid raised %r on %r" % (cls, ex, sol))
                 return v
